@@ -1,0 +1,32 @@
+//go:build verif
+
+package nfdc
+
+// Verification hooks for property C18 (queue control only; no behaviour change).
+
+// Vf18FillQueue fills the command queue to capacity with no-op commands (never blocks). A router whose queue is
+// full stalls wherever it issues a management command — e.g. inside NeighborTable.Remove during the dead sweep.
+func (m *NfdMgmtThread) Vf18FillQueue() int {
+	n := 0
+	for {
+		select {
+		case m.channel <- NfdMgmtCmd{Module: "verif", Cmd: "noop", Retries: 0}:
+			n++
+		default:
+			return n
+		}
+	}
+}
+
+// Vf18DrainAll empties the command queue without executing anything (never blocks).
+func (m *NfdMgmtThread) Vf18DrainAll() int {
+	n := 0
+	for {
+		select {
+		case <-m.channel:
+			n++
+		default:
+			return n
+		}
+	}
+}
